@@ -186,7 +186,9 @@ func VerifH_C03_dies_in_handshake() {
 		})
 		kind := verif.Choose(2)
 		sawCause := false
+		hold := verif.Bool() // the transport of a failed session may take a while to finish closing
 		ps.onMade = func(f *fakeTransport) {
+			f.holdClose = hold
 			verif.Event("transport dies", func() {
 				if kind == 0 {
 					if f.ListenerCount("close") == 0 {
